@@ -17,3 +17,4 @@ def run(ck):
     alloc.r3_local_ownership(ck, P)       # C15-R3: what a function allocates for itself is released on every path (a leak is a lifetime violation too)
     glyph.r2_counters_pair(ck, P)         # C17-R2: the table-clearing sweep visits every slot (a glyph left in an unvisited slot is never released)
     image.r_embedded_region_finalised(ck, P)
+    alloc.r12_region_storage_released_before_overwrite(ck, P)
